@@ -3,6 +3,7 @@ CONSTANTS
   CL = 16
   MaxWin = 7
 INVARIANT InterleaveOK
+INVARIANT IdxOrderIsRoundRobin
 INVARIANT WindowsInside
 INVARIANT WindowLength
 CHECK_DEADLOCK FALSE
